@@ -25,3 +25,13 @@ package v2
 //@   safety C13
 //@   ensures [C17,C03] forall g api.GroupVersionKind :: has(m, g) ==> m[g] == nil || fresh(m[g]) || (old(has(m, g)) && m[g] == old(m[g]))
 //@   ensures [C03] old(noNilChildren(m)) ==> noNilChildren(m)
+
+// Convert: the wire shape of the children map. Every declared child resource (= every group of the uniform map) has an entry,
+// also when it holds no object - for namespaced and for cluster-scoped parents alike.
+//@ func UniformObjectMap.Convert(m, parent) (res)
+//@   requires parent != nil && noNilChildren(m)
+//@   safety C13,C03
+//@   invariant loop 1 [C03]: relativeObjects != nil && (forall g api.GroupVersionKind :: visited(1, g) ==> has(relativeObjects, g) && relativeObjects[g] != nil)
+//@   invariant loop 2 [C03]: relativeObjects != nil && (forall g api.GroupVersionKind :: has(m, g) ==> has(relativeObjects, g) && relativeObjects[g] != nil)
+//@   ensures [C03] res != nil
+//@   ensures [C03] forall g api.GroupVersionKind :: has(m, g) ==> has(res, g) && res[g] != nil
